@@ -82,12 +82,18 @@ deriving DecidableEq, Repr
 /-- `max(1, floor(log(n_samples, branch_factor)))` -/
 def natBin (flog : Nat → Nat) (n : Nat) : Nat := max 1 (flog n)
 
+/-- `gvcf_sample_names is None or len(gvcf_sample_names) == len(gvcfs)` -/
+def namesOk (names : Option (List Nat)) (n : Nat) : Bool :=
+  match names with
+  | some ns => ns.length == n
+  | none => true
+
 /-- `__init__`: `branch_factor < 2` / `gvcf_batch_size < 1` / mismatching `gvcf_sample_names` raise `ValueError`;
 the input datasets are binned in the given order. -/
 def mkPlan (flog : Nat → Nat) (gvcfs : List Nat) (names : Option (List Nat)) (vdses : List DS) (bf batch : Nat) :
     Option Plan :=
   if bf < 2 ∨ batch < 1 then none
-  else if (match names with | some ns => ns.length != gvcfs.length | none => false) then none
+  else if !namesOk names gvcfs.length then none
   else some { gvcfs, names, vdses := vdses.map fun d => (natBin flog d.n, d), bf, batch, finals := [] }
 
 /-- `finished`: `not self._gvcfs and not self._vdses` -/
@@ -197,7 +203,7 @@ def totalN (s : Plan) : Nat :=
   s.gvcfs.length + (s.vdses.map (·.2.n)).sum + (s.finals.map (·.n)).sum
 
 /-- termination measure -/
-def measure (s : Plan) : Nat := 2 * s.gvcfs.length + s.vdses.length
+def planMeasure (s : Plan) : Nat := 2 * s.gvcfs.length + s.vdses.length
 
 /-- the constructor's guarantees that `step` relies on -/
 def WF (s : Plan) : Prop := 2 ≤ s.bf ∧ 1 ≤ s.batch
